@@ -6,7 +6,7 @@ from obligations.C08 import LFHT_TRUSTED
 SEL = ('C06.O1.add_unique', 'C06.O1.add_unique_small', 'C06.O2.replace', 'C06.O2.replace_removed', 'C06.O2.replace_api', 'C08.O4.next_duplicate', 'C07.O1.del', 'C07.O1.del_twice')
 OBLIGATIONS = [o for o in _c08.OBLIGATIONS if o.name in SEL]
 META = {
-    'level': 'proof',
+    'level': 'proof', 'bounded_apart': True,
     'trusted_base': LFHT_TRUSTED,
     'assumptions': ['absence of transient duplicates for a concurrent traversal over all schedules follows from "insert at the head of the equal-hash run" + "replace = one CAS" by the list argument, not machine-checked',
                     'single ownership: the replace CAS sets REMOVAL_OWNER in the same write and only succeeds over an un-REMOVED word; del returns 0 iff its exchange saw OWNER clear; flags only grow (all proved per write site) => at most one winner (pencil-and-paper last step)'],
